@@ -450,7 +450,7 @@ def replay_behaviour(job):
     rc = dict(c, Cls=cls_map(c))
     rp = StorageReplayer(kind, rc, workdir, opts)
     actions = Counter()
-    result = {'steps': 0, 'mismatch': None, 'monitor': [], 'txns': 0, 'sig': []}
+    result = {'steps': 0, 'mismatch': None, 'monitor': [], 'txns': 0, 'sig': [], 'mode': (opts or {}).get('mode_tag')}
     import random
     sparse = bool(opts and opts.get('sparse'))
     rng = random.Random(opts.get('rng_seed', 0) if opts else 0)
